@@ -557,7 +557,7 @@ def one(prog, rep, cls, comb):
 
             def lim_ok(l, comp, col):
                 o_ = ordered(l)
-                if o_ is not None and o_[2] and o_[0] == V(comp):
+                if o_ is not None and o_[2] and o_[0] in (V(comp), ("sub", ("col", Lc(vname), ("const", 0)), ("const", comp))):
                     lim = o_[1]
                     lim = bf.name(lim[1], ifx[0], {}) if lim[0] == "local" else lim
                     for mx in (("call", G("max"), (col,), ()), ("call", G("numpy.max"), (col,), ())):
